@@ -113,7 +113,23 @@ func reparse(f protoreflect.FileDescriptor) (protoreflect.FileDescriptor, string
 	if err != nil {
 		return nil, txt, fmt.Errorf("reparse: %w", err)
 	}
-	return files[0], txt, nil
+	// protocompile keeps custom options as dynamic messages; lib/j5schema (like every consumer of
+	// generated code) expects the generated extension types, so round-trip through the wire form
+	// with the global type registry, as loading a descriptor set from disk would.
+	fdp := protodesc.ToFileDescriptorProto(files[0])
+	b, err := proto.Marshal(fdp)
+	if err != nil {
+		return nil, txt, fmt.Errorf("reparse marshal: %w", err)
+	}
+	fresh := &descriptorpb.FileDescriptorProto{}
+	if err := (proto.UnmarshalOptions{Resolver: protoregistry.GlobalTypes}).Unmarshal(b, fresh); err != nil {
+		return nil, txt, fmt.Errorf("reparse unmarshal: %w", err)
+	}
+	fd, err := protodesc.NewFile(fresh, protoregistry.GlobalFiles)
+	if err != nil {
+		return nil, txt, fmt.Errorf("reparse link: %w", err)
+	}
+	return fd, txt, nil
 }
 
 // ---------------------------------------------------------------- canonical dump of (buf.validate.field)
